@@ -56,6 +56,15 @@ func main() {
 				fmt.Println(w.Variant)
 			}
 		}
+	case "needs":
+		fs := flag.NewFlagSet("needs", flag.ExitOnError)
+		prop := fs.String("prop", "", "")
+		fs.Parse(os.Args[2:])
+		if p := core.Registry[*prop]; p != nil {
+			for _, n := range p.Needs {
+				fmt.Println(n)
+			}
+		}
 	case "list":
 		ids := []string{}
 		for id := range core.Registry {
@@ -388,7 +397,7 @@ func runMain(args []string) int {
 	}
 
 	wall := time.Since(start).Seconds()
-	if !*noEvidence {
+	if !*noEvidence && os.Getenv("VERIF_NO_EVIDENCE") == "" {
 		writeEvidence(p, *tier, seed, st, wall, len(unlisted), totalViol, knownCount, harnessErr)
 	}
 	fmt.Printf("%s tier=%s seed=%d: %d cases evaluated, %d distinct non-trivial classes, %d violation(s) (%d unlisted), %d known-finding id(s), %d inconclusive, %d worker crash(es), %.1fs\n",
